@@ -462,7 +462,16 @@ def _sub_guarded(ctx, module, fq, left, right, step):
         if found is None:
             return False, "get_division_candidate is missing"
         gmod, gfunc = found
-        for sub in ast.walk(gfunc):
+        # the search may live in private helpers of the same module that get_division_candidate calls
+        bodies = [gfunc]
+        for call in calls_in(gfunc):
+            if isinstance(call.func, ast.Name) and call.func.id in gmod.functions and call.func.id != gfunc.name:
+                bodies.append(gmod.functions[call.func.id])
+        raw_g = ctx.repo.raw_function(gmod.name, gfunc.name)
+        for call in calls_in(raw_g):
+            if isinstance(call.func, ast.Name) and call.func.id in gmod.functions and call.func.id != gfunc.name:
+                bodies.append(gmod.functions[call.func.id])
+        for sub in [n for body in bodies for n in ast.walk(body)]:
             if isinstance(sub, ast.If):
                 test = U(sub.test)
                 is_any = any(ctx.dotted(gmod, c.func) == "numpy.any" for c in calls_in(sub.test))
